@@ -58,7 +58,10 @@ class C12(Config):
             "run on generated requests (crate strategy arb_zip321_request plus own generator: 0..6 payments at "
             "arbitrary indices, every address kind x network, Unicode labels over every ASCII class, amounts from a "
             "boundary lattice, 0..512-byte memos, reserved / indexed / malformed other_params names) and on URI "
-            "strings (rendered, grammar-mutated, hand-written ZIP 321 examples, random); the model receives the "
+            "strings (rendered, grammar-mutated, hand-written ZIP 321 examples, random; exhaustively every ordering of one "
+            "payment's parameters - address last, amount/memo before the address - for transparent, TEX, Sapling and unified "
+            "recipients at index 0 and later indices with zero/non-zero amounts and memos; long malformed URIs with raw "
+            "multi-byte UTF-8 of width 2/3/4 at every offset around byte 96 of every possible unparsed remainder); the model receives the "
             "strings and a per-case table classifying every address string with the real zcash_address")
     trusted_base = [
         "Coq 8.16.1 kernel, vm_compute (no native_compute)",
